@@ -232,7 +232,7 @@ class Ncp:
         h = getattr(self, "h_" + name, None)
         vals = h(req, **args) if h is not None else None
         if vals == "invalid":
-            payload = Z.header(self.V, seq, Z.ID_INVALID_COMMAND) + bytes([0x31])
+            payload = Z.header(self.V, seq, Z.ID_INVALID_COMMAND) + self.invalid_body(0x31)
         elif vals == "none":
             return
         else:
@@ -308,7 +308,14 @@ class Ncp:
         else:
             self.loop.external(self.loop.time() + delay, go, group="ncp-app")
 
+    def invalid_body(self, reason: int) -> bytes:
+        """Body of an invalidCommand response: the reason in the status type of this version."""
+        rx = self.cmds["invalidCommand"][2]
+        return self.encode_body(rx, (reason,))
+
     def _raw_rsp(self, seq, fid, body):
+        if fid == Z.ID_INVALID_COMMAND:
+            body = self.invalid_body(body[0])
         self.emit(Z.header(self.V, seq, fid) + body, 0.0, "rsp", seq)
 
     def _send_rsp(self, req, payload):
